@@ -260,7 +260,19 @@ class Interp3(Interp2):
             return f"{base}.{meth}"
         return None
 
+    def get_item_hook3(self, obj, k, node):
+        h = getattr(self, "splice_read", None)
+        if h:
+            r = h(obj, k, node)
+            if r is not None:
+                return r
+        h = getattr(self, "get_item_hook4", None)
+        return h(obj, k, node) if h else None
+
     def set_item_hook3(self, obj, sl, v, node):
+        hs = getattr(self, "splice_write", None)
+        if hs and hs(obj, sl, v, node):
+            return True
         if isinstance(obj, SAdt) and obj.sort == "NodeList" and isinstance(sl, ast.Slice) and sl.step is None and sl.lower is not None and sl.upper is not None \
                 and ast.dump(sl.lower) == ast.dump(sl.upper):
             # l[i:i] = xs   (UserList.__setitem__ -> list slice assignment, A3)
